@@ -2,6 +2,7 @@ package checks
 
 import (
 	"fmt"
+	"sort"
 	"strings"
 
 	"github.com/samber/ro"
@@ -598,6 +599,7 @@ func c11Concurrent(tier string) []fw.Scenario {
 		build   func(ro.Observable[int]) ro.Observable[int]
 		pre     []sop
 		threads [][]sop
+		model   func() c11FinalModel
 	}
 	var progs []prog
 	shareSets := [][][]sop{
@@ -617,7 +619,8 @@ func c11Concurrent(tier string) []fw.Scenario {
 			if si >= 2 {
 				pre = []sop{{"S", 0}, {"S", 1}}
 			}
-			progs = append(progs, prog{name: fmt.Sprintf("%s/set%d", cfg.name, si), build: cfg.build, pre: pre, threads: set})
+			progs = append(progs, prog{name: fmt.Sprintf("%s/set%d", cfg.name, si), build: cfg.build, pre: pre, threads: set,
+				model: func() c11FinalModel { return newShareModel(cfg, 2) }})
 		}
 	}
 	connSets := [][][]sop{
@@ -634,7 +637,8 @@ func c11Concurrent(tier string) []fw.Scenario {
 				if si >= 2 {
 					pre = []sop{{"S", 0}, {"K", 0}}
 				}
-				progs = append(progs, prog{name: fmt.Sprintf("%s/set%d", cfg.name, si), build: cfg.build, pre: pre, threads: set})
+				progs = append(progs, prog{name: fmt.Sprintf("%s/set%d", cfg.name, si), build: cfg.build, pre: pre, threads: set,
+					model: func() c11FinalModel { return newConnModel(cfg, 2) }})
 			}
 		}
 	}
@@ -646,10 +650,44 @@ func c11Concurrent(tier string) []fw.Scenario {
 			for _, t := range p.threads {
 				names = append(names, "["+evString(t)+"]")
 			}
+			// every final state the definition allows: one per order in which the operations can take effect
+			allowed := map[string]string{}
+			c11Linearizations(p.threads, func(order []sop) {
+				m := p.model()
+				for _, o := range p.pre {
+					m.apply(o)
+				}
+				for _, o := range order {
+					m.apply(o)
+				}
+				m.apply(sop{"N", c11Probe})
+				live, subs := m.final()
+				var got []bool
+				for i := 0; i < 2; i++ {
+					got = append(got, hasProbe(m.trace(i)))
+				}
+				k := c11Final(live, subs, got)
+				if _, ok := allowed[k]; !ok {
+					allowed[k] = evString(order)
+				}
+			})
 			c.Explore(fw.Case{Name: strings.Join(names, " "), Bound: bound, Sample: true, Make: func() fw.Instance {
 				var im *shareImpl
 				var escaped string
+				var final string
 				body := func() {
+					defer func() {
+						// all operations are over: the state the sharing machinery is left in, and who still listens
+						vrt.Settle()
+						guard(&escaped, "a probe value after quiescence", func() { im.apply(sop{"N", c11Probe}) })
+						_, _, live, _ := im.src.Get()
+						subs, _, _, _ := im.src.Get()
+						var got []bool
+						for _, rec := range im.recs {
+							got = append(got, hasProbe(rec.Events()))
+						}
+						final = c11Final(live, subs, got)
+					}()
 					im = newShareImpl(p.build, 2, true)
 					for _, o := range p.pre {
 						im.apply(o)
@@ -679,9 +717,22 @@ func c11Concurrent(tier string) []fw.Scenario {
 						if len(r.Blocked) > 0 {
 							out = append(out, fw.V(sig+"/deadlock/"+blockedSummary(r), blockedSummary(r)))
 						}
+						for _, re := range h.RuntimeErrors() {
+							out = append(out, fw.V(sig+"/recovered-runtime-error/dropped", re))
+							break
+						}
 						maxLive := im.src.MaxOpen
 						if maxLive > 1 {
 							out = append(out, fw.V(sig+"/more-than-one-upstream-subscription/live", fmt.Sprintf("%d subscriptions to the source were live at the same time", maxLive)))
+						}
+						if _, ok := allowed[final]; !ok && len(r.Blocked) == 0 && r.Crash == nil && escaped == "" {
+							var al []string
+							for k, ord := range allowed {
+								al = append(al, k+" (e.g. order "+ord+")")
+							}
+							sort.Strings(al)
+							out = append(out, fw.V(sig+"/final-state-not-reachable-sequentially/"+finalClass(final, allowed),
+								fmt.Sprintf("after all operations finished and a probe value was pushed: %s; no order of the operations gives that, the definition allows: %s", final, strings.Join(al, "; "))))
 						}
 						for i, rec := range im.recs {
 							if rec.MaxInside > 1 {
@@ -714,6 +765,79 @@ func c11Concurrent(tier string) []fw.Scenario {
 		}})
 	}
 	return scns
+}
+
+const c11Probe = 9
+
+// c11FinalModel is what the concurrent oracle needs from the two reference models.
+type c11FinalModel interface {
+	apply(sop)
+	final() (live, subs int)
+	trace(i int) []h.Ev
+}
+
+func (m *shareModel) final() (int, int)  { return m.liveSources(), m.srcSubs }
+func (m *shareModel) trace(i int) []h.Ev { return m.traces[i] }
+func (m *connModel) final() (int, int) {
+	if m.connected {
+		return 1, m.srcSubs
+	}
+	return 0, m.srcSubs
+}
+func (m *connModel) trace(i int) []h.Ev { return m.traces[i] }
+
+func hasProbe(evs []h.Ev) bool {
+	for _, e := range evs {
+		if e.K == h.N && e.V.(int) == c11Probe {
+			return true
+		}
+	}
+	return false
+}
+
+func c11Final(live, subs int, got []bool) string {
+	return fmt.Sprintf("live upstream subscriptions=%d, upstream subscriptions made=%d, subscribers reached by the probe=%v", live, subs, got)
+}
+
+// finalClass names the component that no allowed final state shares.
+func finalClass(final string, allowed map[string]string) string {
+	part := func(s string, i int) string { return strings.Split(s, ", ")[i] }
+	for i, name := range []string{"live-upstream", "upstream-subscription-count", "probe-receivers"} {
+		ok := false
+		for k := range allowed {
+			if part(k, i) == part(final, i) {
+				ok = true
+			}
+		}
+		if !ok {
+			return name
+		}
+	}
+	return "combination"
+}
+
+// c11Linearizations calls f with every interleaving of the threads' operation lists.
+func c11Linearizations(threads [][]sop, f func([]sop)) {
+	pos := make([]int, len(threads))
+	var cur []sop
+	var rec func()
+	rec = func() {
+		done := true
+		for t := range threads {
+			if pos[t] < len(threads[t]) {
+				done = false
+				cur = append(cur, threads[t][pos[t]])
+				pos[t]++
+				rec()
+				pos[t]--
+				cur = cur[:len(cur)-1]
+			}
+		}
+		if done {
+			f(append([]sop{}, cur...))
+		}
+	}
+	rec()
 }
 
 func lastOr(ts [][]sop, i int) []sop {
@@ -772,6 +896,10 @@ func c11ColdCase(cfg shareCfg, word []h.Ev, ops []sop) fw.Case {
 					out = append(out, fw.V(sig+"/trace-vs-definition/"+diffClass(recs[i].Events(), m.traces[i]), fmt.Sprintf("%s: subscriber %d received [%s]; the definition gives [%s]", where, i, recs[i].Trace(), h.Word(m.traces[i]))))
 					break
 				}
+			}
+			for _, re := range h.RuntimeErrors() {
+				out = append(out, fw.V(sig+"/recovered-runtime-error/dropped", where+": "+re))
+				break
 			}
 			subs, tears, live, _ := src.Get()
 			if live != m.liveSources() || subs != m.srcSubs {
